@@ -52,6 +52,9 @@ type Scenario struct {
 	IPIDBase  *int64 `json:"ipid_base"`
 	EchoBase  *int64 `json:"echo_base"`
 	SeqBase   *int64 `json:"seq_base"`
+	SeqBase32 *[2]int `json:"seq_base32"` // <<hi16, lo16>> form used by TLC-generated scenarios
+	ISN32     *[2]int `json:"isn32"`
+	Label     string `json:"label"`
 	CancelUs  int64  `json:"cancel_us"`
 	wire.Script
 	Run    *RunParams     `json:"run"`
@@ -248,6 +251,13 @@ func runWire(t *testing.T, s *Scenario) (evs []wire.Event) {
 			icmp.VerifSetEchoIDBase(uint32(*s.EchoBase))
 		}
 		tcp.VerifSeqNum = nil
+		if s.SeqBase32 != nil {
+			v := int64(s.SeqBase32[0])<<16 | int64(s.SeqBase32[1])
+			s.SeqBase = &v
+		}
+		if s.ISN32 != nil {
+			s.Script.ISN = uint32(s.ISN32[0])<<16 | uint32(s.ISN32[1])
+		}
 		if s.SeqBase != nil {
 			v := uint32(*s.SeqBase)
 			tcp.VerifSeqNum = func() (uint32, bool) { return v, true }
